@@ -266,6 +266,39 @@ def o1_subscripts(ctx, B):
     ctx.notes.append('host-contract boundaries (index taken from an API parameter): %s' % (boundary + sorted(B.host_boundaries)))
 
 
+def _widened_signed(f, node):
+    """does the value of `node` (an int expression) reach an implicit conversion to a 64-bit integer type through
+       value-preserving int operators only (| & ^ + parentheses), with no cast to a 32-bit unsigned type in between?"""
+    chain = None
+    for n, parents in walk_parents(f.get('body')):
+        if n is node:
+            chain = parents
+            break
+    if chain is None:
+        return False
+    rev = list(reversed(chain))
+    for i_, p in enumerate(rev):
+        k = p.get('k')
+        t = str(p.get('t', ''))
+        if k == 'cast':
+            if t in ('unsigned int',):
+                return False
+            if t in ('unsigned long', 'long', 'unsigned long long', 'long long'):
+                # handed straight to SignExtend<N <= 32>: the helper discards the upper bits again (intended sign extension)
+                nxt = next((q for q in rev[i_ + 1:] if q.get('k') != 'cast'), None)
+                if nxt is not None and nxt.get('k') == 'call' and str(nxt.get('name', '')).startswith('SignExtend'):
+                    return False
+                return True
+            continue
+        if k == 'bin' and p.get('op') in ('|', '&', '^', '+') and t == 'int':
+            continue
+        if k == 'return':
+            rt = str(f.get('ret', ''))
+            return rt in ('unsigned long', 'long', 'unsigned long long', 'long long')
+        return False
+    return False
+
+
 def o2_arith(ctx, B):
     R = 'C18.O2'
     ctx.rule(R, 'every shift by a non-literal amount stays below the promoted width, every / and % has a non-zero divisor, '
@@ -308,6 +341,10 @@ def o2_arith(ctx, B):
                     if why == 'unproved':
                         ctx.report(R, f, n, inst, 'left shift of a signed (promoted) operand may overflow: operand %s << %d exceeds %d bits'
                                    % (liv, smax, width))
+                    elif width == 32 and liv is not None and (liv[1] << smax) > 0x7FFFFFFF and _widened_signed(f, n):
+                        # the int result can have bit 31 set; widening it to 64 bits sign-extends (0x8000'0000 -> 0xFFFF'FFFF'8000'0000)
+                        ctx.report(R, f, n, inst, 'a shifted int that can have bit 31 set (operand %s << %d) is widened to 64 bits without '
+                                                  'first being converted to a 32-bit unsigned type: the value is sign-extended' % (liv, smax))
             elif op in ('/', '%', '/=', '%='):
                 rhs = n.get('rhs')
                 if const_value(rhs) is not None and const_value(rhs) != 0:
@@ -356,6 +393,50 @@ def o4_lifetime(ctx):
                     if p.get('k') in ('return',):
                         ctx.report(R, f, n, 'return of self-referential ' + n['cls'], 'self-referential object returned by value')
                         break
+    # a closure that outlives the call (returned, stored in a member / std::function, handed to a setter) must not capture
+    # by reference something that dies with the call: an automatic local, a by-value parameter, or a `const T&` parameter
+    # (which may be bound to a temporary of the caller)
+    n_cl = 0
+    for fid, f in F.items():
+        if not is_library(f):
+            continue
+        for n, parents in walk_parents(f.get('body')):
+            if n.get('k') != 'lambda':
+                continue
+            refcaps = [c for c in n.get('caps', []) if c.get('byref') and c.get('name')]
+            if not refcaps:
+                continue
+            n_cl += 1
+            ctx.inst(R)
+            # stays local: initialiser of a local variable, or argument of a std:: algorithm
+            par = [p for p in parents if p.get('k') not in ('cast', 'construct')]
+            local_use = False
+            if par:
+                p0 = par[-1]
+                if p0.get('k') == 'var':
+                    local_use = True
+                if p0.get('k') == 'call' and str(p0.get('fn', '')).startswith('std::') and not str(p0.get('fn', '')).startswith('std::bind'):
+                    local_use = True
+            if local_use:
+                continue
+            for c in refcaps:
+                base = str(c['name']).split('@')[0]
+                prm = [p_ for p_ in f.get('params', []) if p_.get('name') == base]
+                why = None
+                if prm:
+                    t = str(prm[0].get('t', ''))
+                    if not t.rstrip().endswith('&'):
+                        why = 'the by-value parameter `%s`' % base
+                    elif t.startswith('const '):
+                        why = 'the parameter `%s` (%s), which may be bound to a temporary of the caller' % (base, t)
+                else:
+                    decl = [v for v in walk(f.get('body')) if v.get('k') == 'var' and str(v.get('name', '')).split('@')[0] == base]
+                    if decl and not decl[0].get('isref') and not decl[0].get('static'):
+                        why = 'the automatic local `%s`' % base
+                if why:
+                    ctx.report(R, f, n, 'closure captures %s by reference' % base,
+                               'a closure that outlives the call captures %s by reference: it dangles when the closure is invoked' % why)
+    ctx.oblig(R, n_cl)
     # reference members must not be bound to temporaries: every ctor init of a reference member takes an lvalue parameter/member
     for fid, f in F.items():
         if not (f.get('ctor') and is_library(f)):
